@@ -1,5 +1,6 @@
 import MageModel.Parse.Ast
 import MageModel.Parse.Pkg
+import MageModel.Gen.Dispatch
 /-!
 # C06 — targets are exactly the exported functions with a valid target signature (signature part)
 All ways of writing parameter and result lists: grouped names, unnamed and blank parameters, named results, any types.
@@ -345,6 +346,66 @@ theorem targets_file_order_independent (files files' : List File) (h : files.Per
   · intro d; simp only [List.mem_flatMap]; constructor <;> (rintro ⟨a, ha, hd⟩; exact ⟨a, by first | exact h.mem_iff.mp ha | exact h.mem_iff.mpr ha, hd⟩)
   · intro t; simp only [List.mem_flatMap]; constructor <;> (rintro ⟨a, ha, hd⟩; exact ⟨a, by first | exact h.mem_iff.mp ha | exact h.mem_iff.mpr ha, hd⟩)
 
+
+/-! ### the listing stars the default target only -/
+section
+open MageModel.Gen
+theorem filter_key_le_one {α} (l : List α) (key : α → String) (k : String) (h : (l.map key).Nodup) :
+    (l.filter fun x => key x == k).length ≤ 1 := by
+  induction l with
+  | nil => simp
+  | cons a rest ih =>
+    simp only [List.map_cons, List.nodup_cons] at h
+    simp only [List.filter_cons]
+    split
+    · rename_i hk
+      have hk' : key a = k := by simpa using hk
+      have : (rest.filter fun x => key x == k) = [] := by
+        rw [List.filter_eq_nil_iff]
+        intro x hx hxk
+        have : key x = k := by simpa using hxk
+        apply h.1
+        rw [hk', ← this]
+        exact List.mem_map_of_mem hx
+      simp [this]
+    · exact ih h.2
+
+/-- which entries of the listing carry the star: those whose target name is the default's -/
+def starred (info : PkgInfo) : List Function :=
+  (allTargets info).filter fun f => match info.defaultFunc with
+    | some d => f.targetName == d.targetName
+    | none => false
+
+/-- **At most one listed target is starred, and it is the default** (D7: comparing only name and receiver starred
+imported namesakes too) — whenever the runnable names are distinct, which the duplicate check guarantees. -/
+theorem star_unique (info : PkgInfo) (h : ((allTargets info).map (·.targetName)).Nodup) :
+    (starred info).length ≤ 1 ∧ ∀ f ∈ starred info, ∃ d, info.defaultFunc = some d ∧ f.targetName = d.targetName := by
+  unfold starred
+  cases hd : info.defaultFunc with
+  | none =>
+    have : (allTargets info).filter (fun _ => false) = [] := by simp
+    simp [this]
+  | some d =>
+    simp only []
+    refine ⟨filter_key_le_one _ (fun (x : Function) => x.targetName) d.targetName h, ?_⟩
+    intro f hf
+    simp only [List.mem_filter, beq_iff_eq] at hf
+    exact ⟨d, rfl, hf.2⟩
+
+/-- the names `-l` prints are built from exactly those target names: a star iff `starred` -/
+theorem listing_star (info : PkgInfo) (f : Function) :
+    (match info.defaultFunc with | some d => (if d.targetName == f.targetName then "*" else "") | none => "") = "*" ↔
+      (match info.defaultFunc with | some d => f.targetName == d.targetName | none => false) = true := by
+  cases info.defaultFunc with
+  | none => simp
+  | some d =>
+    simp only []
+    by_cases h : d.targetName = f.targetName
+    · simp [h]
+    · have h' : ¬ f.targetName = d.targetName := fun e => h e.symm
+      simp [h, h']
+
+end
 
 /-! ### the pinned tree (D4): unnamed parameters produced no argument -/
 namespace Pinned
